@@ -619,7 +619,10 @@ func checkSawTooth(ctx *Ctx, r *Report) {
 	}
 	r.check("M5", "SawTooth|closed-form", fn.Pos(), okF, "SawTooth(x,P) ≡ P·(t−⌊t⌋) − P/2, t = (x+P/2)/P (range [−P/2, P/2), SawTooth(0)=0); term: "+shortKey(valKey(res), 200)+" expected "+shortKey(want.Key(), 120))
 	// vector clamps
-	for _, pk := range []struct{ pkg, name string; dim int }{{"vec/v3", "(Vec).Clamp", 3}, {"vec/v2", "(Vec).Clamp", 2}} {
+	for _, pk := range []struct {
+		pkg, name string
+		dim       int
+	}{{"vec/v3", "(Vec).Clamp", 3}, {"vec/v2", "(Vec).Clamp", 2}} {
 		cf := ctx.ssaFunc(pk.pkg, pk.name)
 		if cf == nil {
 			r.undecided("M5", pk.pkg+".Clamp", 0, "not found")
